@@ -182,9 +182,9 @@ class DictDecoder:
                 real_clazz = self.context.find_type(xsi_type)
 
             if real_clazz is None:
+                keys = list(params.keys()) if isinstance(params, dict) else params
                 raise ParserError(
-                    f"Unable to locate derived model "
-                    f"with properties({list(params.keys())})"
+                    f"Unable to locate derived model with properties({keys})"
                 )
 
             value = self.bind_dataclass(params, real_clazz)
